@@ -134,6 +134,8 @@ pub struct C09Stats {
     pub by_class: BTreeMap<String, u64>,
     pub removed_middle: u64,
     pub exhaustive_images: u64,
+    pub live_alterations: u64,
+    pub live_reported: u64,
 }
 
 fn c09_viol(sig: String, text: String, ci: &CleanImage, mutated: &Image, desc: Value) -> Viol {
@@ -224,6 +226,70 @@ fn c09_judge(ci: &CleanImage, idir: &ImageDir, mutated: &Image, fidx: usize, rec
             Some(c09_viol(format!("refused_open_modified_older_chunk:{}", fname), format!("open refused and chunk file(s) {:?} other than the newest differ afterwards", changed), ci, mutated, desc))
         }
     }
+}
+
+/// "…or reading the affected entry": bytes of Append records in CLOSED chunks are altered underneath an
+/// open store whose cache holds nothing for them (max_items = 0), then the entry is read. The read must
+/// report an error or return what was written; it must not return something else and must not panic.
+pub fn c09_after_open(ci: &CleanImage, r: &mut Rng, stats: &mut C09Stats, out_viols: &mut Vec<Viol>, deadline: f64) {
+    use std::os::unix::fs::FileExt;
+    if ci.img.len() < 2 {
+        return;
+    }
+    let idir = ImageDir::new("c09live");
+    idir.install(&ci.img);
+    let mut cfg = ci.cfg.clone();
+    cfg.max_items = Some(0);
+    cfg.capacity = Some(0);
+    cfg.truncate = None;
+    let Ok(mut st) = Store::open(&idir.dir, &cfg, 45) else { return };
+    let _ = st.wait_idle(5_000);
+    st.rl().drain_cache_evictable();
+    for (fidx, (cid, bytes)) in ci.img.iter().enumerate() {
+        if fidx + 1 == ci.img.len() {
+            break; // entries of the open chunk are pinned in the cache
+        }
+        let path = format!("{}/{}", idir.dir, refcodec::chunk_file_name(*cid));
+        let Ok(f) = std::fs::OpenOptions::new().write(true).open(&path) else { continue };
+        for (s, e, rec) in refcodec::parse_file(bytes).recs {
+            let crate::model::Rec::Append(id, payload) = rec else { continue };
+            // only entries that are still live can be read
+            if !ci.entries.iter().any(|(i2, p2)| *i2 == id && *p2 == payload) {
+                continue;
+            }
+            for pos in s..e {
+                if util::now_s() > deadline {
+                    st.close();
+                    return;
+                }
+                let val = bytes[pos] ^ (1 << r.below(8));
+                if f.write_all_at(&[val], pos as u64).is_err() {
+                    continue;
+                }
+                stats.live_alterations += 1;
+                let res = st.read(id.1, id.1 + 1);
+                let _ = f.write_all_at(&[bytes[pos]], pos as u64);
+                let desc = json!({"mode": "altered_after_open", "chunk": cid, "offset": pos, "old": bytes[pos], "new": val, "entry": [id.0, id.1]});
+                let bad = match res {
+                    Outcome2::Err(_) => {
+                        stats.live_reported += 1;
+                        None
+                    }
+                    Outcome2::Ok(v) if v.len() == 1 && v[0].0 == id && v[0].1 == payload => None,
+                    Outcome2::Ok(v) => Some(("read_returned_altered_entry".to_string(), format!("a byte of entry {:?} in closed chunk {} was altered after open; the cache-miss read returned {:?} instead of an error or the written payload {:?}", id, cid, v.first().map(|x| crate::model::short(&x.1)), crate::model::short(&payload)))),
+                    Outcome2::Panic(p) => Some((format!("read_panic:{}", p.rsplit(" @ ").next().unwrap_or("?")), format!("read of an entry whose record was altered on disk panicked: {}", p))),
+                };
+                if let Some((sig, text)) = bad {
+                    if !out_viols.iter().any(|x| x.sig == format!("C09:{}", sig)) {
+                        let mut m = ci.img.clone();
+                        m[fidx].1[pos] = val;
+                        out_viols.push(c09_viol(sig, text, ci, &m, desc));
+                    }
+                }
+            }
+        }
+    }
+    st.close();
 }
 
 fn replacements(orig: u8, r: &mut Rng, all: bool) -> Vec<u8> {
@@ -539,6 +605,7 @@ pub fn run_shard(ctx: &mut Ctx) {
         let before10 = s10.opens;
         if is09 {
             let all = ctx.tier == Tier::Thorough;
+            c09_after_open(&ci, &mut r, &mut s09, &mut viols, deadline);
             let done = c09_image(&ci, &mut r, all, &mut s09, &mut viols, deadline);
             if done && all {
                 s09.exhaustive_images += 1;
@@ -563,6 +630,8 @@ pub fn run_shard(ctx: &mut Ctx) {
         ctx.out.count("opens_of_mutated_images", s09.opens);
         ctx.out.count("mutations_reported(open_or_read_error)", s09.refused);
         ctx.out.count("middle_chunks_removed", s09.removed_middle);
+        ctx.out.count("bytes_altered_underneath_an_open_store_then_read", s09.live_alterations);
+        ctx.out.count("of_which_reported_by_the_read", s09.live_reported);
         ctx.out.count("images_swept_with_all_255_values_at_every_byte", s09.exhaustive_images);
         for (k, n) in &s09.by_class {
             ctx.out.count(&format!("mutated:{}", k), *n);
